@@ -257,6 +257,7 @@ def finish(w, pid, coverage, assumptions, violations, known_hits, level="model_c
 
 def keep_replay(w, trace, tag):
     dst = os.path.join(REPLAY, "%s_%s_s%d_%s.ndjson" % (w.pid, w.tier, w.seed, tag))
+    os.makedirs(REPLAY, exist_ok=True)
     shutil.copy(trace, dst)
     return dst
 
